@@ -22,7 +22,7 @@ IntoExistingAgrees == WellFormed(in) /\ ~in.upd /\ ~in.ret =>
    \A k \in {"OI", "RI"} : LET ke == IF k = "OI" THEN "OIE" ELSE "RIE" IN
         {w \in IEExp(in, ke) : w.leaf # Extra(in)} = IntoExp(in, k)
 \* C07: by-reference flavours designate what the owned ones do when no ownership-specific instruction is involved
-RefAgreesWithOwned == WellFormed(in) /\ NoGhostKinds(in) /\ in.sgm = "both" =>
+RefAgreesWithOwned == WellFormed(in) /\ NoGhostKinds(in) /\ in.sgm \in {"both", "ded"} =>
    /\ IntoExp(in, "OI") = IntoExp(in, "RI") /\ FromExp(in, "FO") = FromExp(in, "FR") /\ IEExp(in, "OIE") = IEExp(in, "RIE")
 \* C01: every leaf of the result has exactly one designation ("no other field is affected" is the Rest part)
 OneDesignationPerLeaf == WellFormed(in) =>
